@@ -381,6 +381,20 @@ def _inline_call(caller, body, idx, st, c, helper, how, where):
             _Rename(ren).visit(s)
         binds = [(ren.get(p, p), a) for p, a in binds]
         hlocals = {ren.get(x, x) for x in hlocals}
+    # a parameter that needs a binding statement never reuses a name of the caller (it would clobber it)
+    ren2 = {}
+    stored0 = _stored_names(ast.Module(body=hbody, type_ignores=[]))
+    for p, a in binds:
+        if isinstance(a, ast.Name) and a.id == p:
+            continue
+        r = _root(a) if not isinstance(a, ast.Constant) else None
+        will_sub = _cheap(a) and p not in stored0 and (r is None or r not in stored0)
+        if not will_sub and p in caller_names:
+            ren2[p] = f'{p}__{helper.name.strip("_")}'
+    if ren2:
+        for s_ in hbody:
+            _Rename(ren2).visit(s_)
+        binds = [(ren2.get(p, p), a) for p, a in binds]
     stored_in_h = _stored_names(ast.Module(body=hbody, type_ignores=[]))
     pre, sub = [], {}
     for p, a in binds:
@@ -406,6 +420,24 @@ def _inline_call(caller, body, idx, st, c, helper, how, where):
                     if len(st.targets) == 1 and isinstance(st.targets[0], ast.Name) and isinstance(v, ast.Name) \
                             and v.id == st.targets[0].id:
                         return []
+                    t0 = st.targets[0]
+                    if len(st.targets) == 1 and isinstance(t0, ast.Tuple) and isinstance(v, ast.Tuple) \
+                            and len(t0.elts) == len(v.elts) and all(isinstance(e, ast.Name) for e in t0.elts) \
+                            and not any(isinstance(e, ast.Starred) for e in v.elts):
+                        # a, b = x, y  ->  a = x; b = y   when no value reads a target bound earlier in the sequence
+                        tn = [e.id for e in t0.elts]
+                        indep = True
+                        for i, e in enumerate(v.elts):
+                            used = {x.id for x in ast.walk(e) if isinstance(x, ast.Name)}
+                            if used & (set(tn[:i]) - ({tn[i]} if isinstance(e, ast.Name) and e.id == tn[i] else set())):
+                                indep = False
+                        if indep:
+                            out = []
+                            for tgt, e in zip(t0.elts, v.elts):
+                                if isinstance(e, ast.Name) and e.id == tgt.id:
+                                    continue
+                                out.append(ast.Assign(targets=[copy.deepcopy(tgt)], value=e))
+                            return out
                     return [ast.Assign(targets=copy.deepcopy(st.targets), value=v)]
                 return [ast.AnnAssign(target=copy.deepcopy(st.target), annotation=st.annotation, value=v, simple=st.simple)]
         elif where == 'expr':
@@ -611,6 +643,103 @@ def _stmt_range(fn, def_st, uses):
     return None
 
 
+SCALAR_FUNCS = {'len', 'int', 'float', 'str', 'bool', 'abs', 'min', 'max', 'round', 'isinstance', 'getattr', 'hasattr',
+                'sum', 'any', 'all', 'repr', 'id', 'type'}
+ONE_SHOT = {'zip', 'enumerate', 'map', 'filter', 'iter', 'reversed'}
+
+
+def _parent_map(fn):
+    pm = {}
+    for n in ast.walk(fn):
+        for c in ast.iter_child_nodes(n):
+            pm[id(c)] = n
+    return pm
+
+
+def _uses_allow_substitution(fn, def_st, E, loads) -> bool:
+    """the name stands for one object; the expression makes a new one at every evaluation.  Substituting is only
+    the same program when nobody can tell: the object is never written through the name, and - if E builds a fresh
+    object - every use only reads it (or there is a single use evaluated once per binding)."""
+    pm = _parent_map(fn)
+    fresh = one_shot = False
+    for x in ast.walk(E):
+        if isinstance(x, (ast.List, ast.Dict, ast.Set, ast.ListComp, ast.DictComp, ast.SetComp)):
+            fresh = True
+        if isinstance(x, ast.GeneratorExp):
+            fresh = one_shot = True
+        if isinstance(x, ast.Call):
+            f = x.func
+            if isinstance(f, ast.Name) and f.id in SCALAR_FUNCS:
+                continue
+            fresh = True
+            if isinstance(f, ast.Name) and f.id in ONE_SHOT:
+                one_shot = True
+    for ld in loads:
+        par = pm.get(id(ld))
+        # (i) never written through the name
+        top = ld
+        while isinstance(pm.get(id(top)), (ast.Attribute, ast.Subscript)) and pm[id(top)].value is top:
+            top = pm[id(top)]
+        if top is not ld and isinstance(getattr(top, 'ctx', None), (ast.Store, ast.Del)):
+            return False
+        up = pm.get(id(top))
+        if isinstance(up, ast.AugAssign) and up.target is top:
+            return False
+        if isinstance(top, ast.Attribute) and isinstance(up, ast.Call) and up.func is top and top.attr in MUTATORS:
+            return False
+        if isinstance(par, ast.Compare) and any(isinstance(o, (ast.Is, ast.IsNot)) for o in par.ops) and fresh:
+            return False
+    if not fresh:
+        return True
+
+    def in_repeated_region(ld) -> bool:
+        a = pm.get(id(ld))
+        child = ld
+        while a is not None and a is not fn:
+            if isinstance(a, (ast.For, ast.AsyncFor)) and child is not a.iter and not any(y is def_st for y in ast.walk(a)):
+                return True
+            if isinstance(a, ast.While) and not any(y is def_st for y in ast.walk(a)):
+                return True
+            if isinstance(a, (ast.ListComp, ast.SetComp, ast.DictComp, ast.GeneratorExp)):
+                if not (a.generators and child is a.generators[0] and False):
+                    first_iter = a.generators[0].iter
+                    if not any(y is ld for y in ast.walk(first_iter)):
+                        return True
+            child = a
+            a = pm.get(id(a))
+        return False
+
+    if len(loads) == 1:
+        return not in_repeated_region(loads[0])
+    if one_shot:
+        return False
+    for ld in loads:
+        par = pm.get(id(ld))
+        ok = False
+        if isinstance(par, (ast.Attribute, ast.Subscript)) and par.value is ld and isinstance(par.ctx, ast.Load):
+            up = pm.get(id(par))
+            ok = not (isinstance(par, ast.Attribute) and isinstance(up, ast.Call) and up.func is par
+                      and par.attr not in PURE_METHODS)
+        elif isinstance(par, ast.Subscript) and par.slice is ld:
+            ok = True
+        elif isinstance(par, (ast.BinOp, ast.UnaryOp, ast.Compare, ast.BoolOp, ast.FormattedValue, ast.JoinedStr)):
+            ok = True
+        elif isinstance(par, ast.IfExp) and par.test is ld:
+            ok = True
+        elif isinstance(par, (ast.If, ast.While, ast.Assert)) and par.test is ld:
+            ok = True
+        elif isinstance(par, (ast.For, ast.comprehension)) and par.iter is ld:
+            ok = True
+        elif isinstance(par, ast.Call) and ld in par.args:
+            f = par.func
+            from .loader import dotted_name
+            d = dotted_name(f) or ''
+            ok = (isinstance(f, ast.Name) and (f.id in PURE_FUNCS or f.id in SCALAR_FUNCS)) or d.split('.')[0] in ('np', 'numpy', 'math')
+        if not ok:
+            return False
+    return True
+
+
 def inline_new_locals(fn, ref_names: set[str], ref_sigs: set[str], mutated: set[str]) -> int:
     from .alpha import function_locals, signatures
     done = 0
@@ -650,6 +779,8 @@ def inline_new_locals(fn, ref_names: set[str], ref_sigs: set[str], mutated: set[
                     deferred = deferred or d
                 stack.extend((c, d) for c in ast.iter_child_nodes(n))
             if deferred or not loads:
+                continue
+            if not _uses_allow_substitution(fn, def_st, E, loads):
                 continue
             rng = _stmt_range(fn, def_st, loads)
             if rng is None:
@@ -725,19 +856,19 @@ def inline_new_locals(fn, ref_names: set[str], ref_sigs: set[str], mutated: set[
 def prenormalise(tree, rel: str, R: dict):
     from .alpha import _functions
     from .loader import _Canon
-    known = set(R.get('__funcs__', {}).get(rel, []))
+    from . import alpha
+    known = set(R.get('__funcs__', {}).get(rel, [])) | {q for (r, q) in alpha._MOVED_INV if r == rel}
     if not known:
         return tree, 0
     n = strip_logging(tree)
     n += inline_new_helpers(tree, known)
     mutated = _mutated_attrs(tree)
-    sig = R.get(rel) or {}
-    fsig = R.get('__flat__', {}).get(rel, {})
     for q, fn in list(_functions(tree)):
         if q not in known:
             continue
-        ref_names = set(sig.get(q) or ()) | set(fsig.get(q) or ())
-        ref_sigs = set((sig.get(q) or {}).values()) | set((fsig.get(q) or {}).values())
+        sg, fsg = alpha._rd(R, None, rel, q) or {}, alpha._rd(R, '__flat__', rel, q) or {}
+        ref_names = set(sg) | set(fsg)
+        ref_sigs = set(sg.values()) | set(fsg.values())
         n += inline_new_locals(fn, ref_names, ref_sigs, mutated)
     if n:
         tree = _Canon().visit(tree)
